@@ -7,7 +7,7 @@
    (ObjectAlignmenter::Check), fewer than 2^32 columns in one call. *)
 From Coq Require Import ZArith List Bool.
 From MomoCommon Require Import GenPrelude.
-From C18 Require Gen_Vertices Gen_Ceil Gen_List Gen_Raw Gen_Bits Gen_Mut Gen_PvCreate PvCreate Model Layout Fill Vertices Bits Inv Main RawLife RawGen Static.
+From C18 Require Gen_Vertices Gen_Ceil Gen_List Gen_Raw Gen_Bits Gen_Mut Gen_PvCreate PvCreate PvDestroy Model Layout Fill Vertices Bits Inv Main RawLife RawGen Static.
 Import ListNotations.
 Local Open Scope Z_scope.
 
@@ -423,6 +423,40 @@ Theorem C18_generated_pvCreate_is_create_group :
     forall cs k, PvCreate.interp_group sb bb cs k = Some (RawLife.create_group k cs).
 Proof. exact PvCreate.generated_pvCreate_is_create_group. Qed.
 Print Assumptions C18_generated_pvCreate_is_create_group.
+
+(* final round: destroying a row.  AST facts, by computation on the statement trees of ALL instantiations (Gen_PvCreate.v): every
+   pvDestroy<Void, Item, Items...> is [Destroy the item at THIS column's offset; pvDestroy(.., columns + 1, ..)], every base case is
+   empty, and DestroyRaw is exactly one loop over mFuncRecords calling destroyFunc once on THAT record's columns *)
+Theorem C18_pvDestroy_DestroyRaw_have_the_shape :
+  forallb (fun b => match PvDestroy.dacts_of b with Some a => PvDestroy.dacts_eqb a PvDestroy.dstep | None => false end)
+          Gen_PvCreate.pvDestroy_steps = true /\
+  forallb (fun b => match PvDestroy.dacts_of b with Some [] => true | _ => false end) Gen_PvCreate.pvDestroy_bases = true /\
+  PvDestroy.destroy_raw_shape Gen_PvCreate.DestroyRaw_body = true /\
+  Gen_PvCreate.pvDestroy_steps <> [] /\ Gen_PvCreate.pvDestroy_bases <> [].
+Proof. exact PvDestroy.destroy_shape_facts. Qed.
+Print Assumptions C18_pvDestroy_DestroyRaw_have_the_shape.
+
+(* pvDestroy over any group, read through ANY generated instantiation: every item destroyed exactly once, front to back *)
+Theorem C18_generated_pvDestroy_is_hand_model :
+  forall sb bb, In sb Gen_PvCreate.pvDestroy_steps -> In bb Gen_PvCreate.pvDestroy_bases ->
+    forall cs, PvDestroy.dinterp_group sb bb cs = Some (map RawLife.Dtor cs).
+Proof. exact PvDestroy.generated_pvDestroy_is_hand_model. Qed.
+Print Assumptions C18_generated_pvDestroy_is_hand_model.
+
+(* DestroyRaw over any list of groups is the hand model RawLife.destroy_raw (the one C18_raw_create_destroy_once is about) *)
+Theorem C18_generated_DestroyRaw_is_hand_model :
+  forall sb bb, In sb Gen_PvCreate.pvDestroy_steps -> In bb Gen_PvCreate.pvDestroy_bases ->
+    forall groups, PvDestroy.destroy_raw_interp sb bb groups = Some (RawLife.destroy_raw groups).
+Proof. exact PvDestroy.generated_DestroyRaw_is_hand_model. Qed.
+Print Assumptions C18_generated_DestroyRaw_is_hand_model.
+
+(* OBSERVATION about generated code (not a C18 violation): IsMutable(0) on a fresh keepRowNumber list passes its assertion although
+   mMutableOffsets is still empty *)
+Theorem C18_obs_ismutable_on_fresh_row_number_list :
+  Model.totalSize (Model.init true) = 8 /\ Model.mutCount (Model.init true) = 0 /\
+  Gen_Mut.IsMutable Gen_Bits.GetBit (Model.totalSize (Model.init true)) (Model.mutBytes (Model.init true)) 0 = Ok false.
+Proof. exact Main.obs_ismutable_on_fresh_row_number_list. Qed.
+Print Assumptions C18_obs_ismutable_on_fresh_row_number_list.
 
 (* round 7: the GENERATED IsMutable member (MOMO_ASSERT(offset < mTotalSize) -> Stuck, then the generated GetBit on
    mMutableOffsets.GetItems()) on every reachable state: at a column's offset the assertion holds and the answer is whether the
